@@ -99,6 +99,8 @@ type loopCtx struct {
 	fr        *Frame
 	name      string
 	iter      *Term
+	unroll    bool // a loop without a contract: executed iteration by iteration (complete only if it ends within the bound)
+	count     int
 }
 
 type discoverCtx struct {
@@ -372,9 +374,16 @@ func (x *Exec) execBlock(st *State, fr *Frame, b, prev *ssa.BasicBlock, lc *loop
 	li := x.W.Loops(fn)
 	if ord, isHeader := li.Ord[b]; isHeader {
 		// arriving at a loop header
-		if lc != nil && lc.header == b && lc.fr.ID == fr.ID {
-			x.loopBackEdge(st, fr, b, prev, lc)
-			return
+		// a back edge of the innermost loop, or (after an inner loop has been left) of an enclosing one
+		for c := lc; c != nil; c = c.parent {
+			if c.header == b && c.fr.ID == fr.ID {
+				if c.unroll {
+					x.unrollBackEdge(st, fr, b, prev, c, k)
+				} else {
+					x.loopBackEdge(st, fr, b, prev, c)
+				}
+				return
+			}
 		}
 		x.loopEnter(st, fr, b, prev, ord, lc, k)
 		return
